@@ -139,4 +139,157 @@ theorem reenc_fixed_iff (s E F : Nat) (hs : s ≤ 1) (hE : E < 256) (hF : F < 83
     · exact absurd h (reenc_noncanonical s E F hs hE hF hc)
   · exact reenc_canonical s E F hE hF
 
+/-! ### every output of `to68` is a canonical word -/
+
+/-- magnitude of `int(A·2^s)` -/
+def tdm (A : Nat) (s : Int) : Nat := if 0 ≤ s then A * 2 ^ s.toNat else A / 2 ^ (-s).toNat
+
+theorem truncShift_natCast (A : Nat) (s : Int) : truncShift (A : Int) s = tdm A s := by
+  unfold truncShift tdm
+  split
+  · simp
+  · rw [Int.tdiv_eq_ediv_of_nonneg (by omega)]; simp
+
+theorem truncShift_neg_natCast (A : Nat) (s : Int) : truncShift (-(A : Int)) s = -(tdm A s : Int) := by
+  unfold truncShift tdm
+  split
+  · simp [Int.neg_mul]
+  · rw [Int.neg_tdiv, Int.tdiv_eq_ediv_of_nonneg (by omega)]; simp
+
+/-- below the normal range the depressed, truncated mantissa is in `1 … 2^22 - 1` -/
+theorem tdm_denormal_bound (A : Nat) (e : Int) (hA : A ≠ 0) (hlo : -151 < e + bitLen A) (hhi : e + bitLen A < -128) :
+    1 ≤ tdm A (e + 151) ∧ tdm A (e + 151) < 4194304 := by
+  have hb := bitLen_bounds A hA
+  have hbp := bitLen_pos A hA
+  unfold tdm
+  split
+  · rename_i h
+    exact denormal_bound A e hA h hhi
+  · rename_i h
+    generalize hk : (-(e + 151)).toNat = k
+    generalize hn : bitLen A = n at *
+    have hkn : k ≤ n - 1 := by omega
+    have hp : 0 < 2 ^ k := Nat.pos_of_ne_zero (by simp)
+    constructor
+    · rw [Nat.le_div_iff_mul_le hp, Nat.one_mul]
+      exact Nat.le_trans (Nat.pow_le_pow_right (by omega) hkn) hb.1
+    · rw [Nat.div_lt_iff_lt_mul hp]
+      have h1 : 2 ^ n = 2 ^ (n - k) * 2 ^ k := by rw [← Nat.pow_add]; congr 1; omega
+      have h2 : 2 ^ (n - k) ≤ 2 ^ 22 := Nat.pow_le_pow_right (by omega) (by omega)
+      have h3 : 2 ^ (n - k) * 2 ^ k ≤ 2 ^ 22 * 2 ^ k := Nat.mul_le_mul_right _ h2
+      simp only [Nat.reducePow] at h3
+      omega
+
+theorem to68_denormal_pos' (A : Nat) (e : Int) (hA : A ≠ 0) (hlo : -151 < e + bitLen A) (hhi : e + bitLen A < -128) :
+    to68 (A : Int) e = 0 * 2147483648 + 0 * 8388608 + tdm A (e + 151) := by
+  have hT := tdm_denormal_bound A e hA hlo hhi
+  unfold to68 frexpExp
+  simp only [Int.natAbs_natCast]
+  generalize bitLen A = n at *
+  have hm0 : ¬ ((A : Int) = 0) := by omega
+  have c1 : ¬ (e + (n : Int) ≤ -(128 + 23)) := by omega
+  have c2 : ¬ (e + (n : Int) > 127) := by omega
+  have c3 : (e + (n : Int) < -128) := by omega
+  have c4 : ¬ ((A : Int) < 0) := by omega
+  simp only [hm0, c1, c2, c3, c4, if_false, if_true]
+  have hsh : (23 : Int) - n - (-128 - (e + n)) = e + 151 := by omega
+  rw [hsh, truncShift_natCast, pyAnd_ff, pyAnd_m23, word_assemble _ _ _ (by omega) (by omega)]
+  have h1 : (((-128 : Int) - 128) % 256).toNat = 0 := by decide
+  have h2 : (((tdm A (e + 151) : Nat) : Int) % 8388608).toNat = tdm A (e + 151) := by omega
+  rw [h1, h2]
+
+theorem to68_denormal_neg' (A : Nat) (e : Int) (hA : A ≠ 0) (hlo : -151 < e + bitLen A) (hhi : e + bitLen A < -128) :
+    to68 (-(A : Int)) e = 1 * 2147483648 + 255 * 8388608 + (8388608 - tdm A (e + 151)) := by
+  have hT := tdm_denormal_bound A e hA hlo hhi
+  unfold to68 frexpExp
+  simp only [Int.natAbs_neg, Int.natAbs_natCast]
+  generalize bitLen A = n at *
+  have hm0 : ¬ (-(A : Int) = 0) := by omega
+  have c1 : ¬ (e + (n : Int) ≤ -(128 + 23)) := by omega
+  have c2 : ¬ (e + (n : Int) > 127) := by omega
+  have c3 : (e + (n : Int) < -128) := by omega
+  have c4 : (-(A : Int) < 0) := by omega
+  simp only [hm0, c1, c2, c3, c4, if_false, if_true]
+  have hsh : (23 : Int) - n - (-128 - (e + n)) = e + 151 := by omega
+  rw [hsh, truncShift_neg_natCast, pyAnd_ff, pyAnd_m23, word_assemble _ _ _ (by omega) (by omega)]
+  have h1 : (((127 : Int) - -128) % 256).toNat = 255 := by decide
+  have h2 : ((-((tdm A (e + 151) : Nat) : Int)) % 8388608).toNat = 8388608 - tdm A (e + 151) := by omega
+  rw [h1, h2]
+
+theorem to68_clamps (m e : Int) (hm : m ≠ 0) :
+    (frexpExp m e ≤ -151 → to68 m e = 0x40000000) ∧
+    (127 < frexpExp m e → to68 m e = if m < 0 then 0xFFC00000 else 0x7FFFFFFF) := by
+  unfold to68
+  generalize frexpExp m e = x
+  constructor
+  · intro h
+    have : x ≤ -(128 + 23) := by omega
+    simp only [this, if_true]
+  · intro h
+    have h1 : ¬ x ≤ -(128 + 23) := by omega
+    have h2 : x > 127 := by omega
+    simp only [h1, h2, if_false, if_true]
+
+/-- the fields of a word (`sign·2^31 + E·2^23 + F`) satisfy `Canon68` -/
+def CanonWord (u : Nat) : Prop := Canon68 (fld u 31 1) (fld u 23 8) (fld u 0 23)
+
+theorem canonWord_assembled (s E F : Nat) (hs : s ≤ 1) (hE : E < 256) (hF : F < 8388608) (h : Canon68 s E F) :
+    CanonWord (s * 2147483648 + E * 8388608 + F) := by
+  unfold CanonWord
+  obtain ⟨h1, h2, h3⟩ := fld_assembled s E F hs hE hF
+  rw [h1, h2, h3]; exact h
+
+theorem asm_exists (s E F : Nat) (hs : s ≤ 1) (hE : E < 256) (hF : F < 8388608) (hc : Canon68 s E F) :
+    ∃ s' E' F', s' ≤ 1 ∧ E' < 256 ∧ F' < 8388608 ∧
+      s * 2147483648 + E * 8388608 + F = s' * 2147483648 + E' * 8388608 + F' ∧ Canon68 s' E' F' :=
+  ⟨s, E, F, hs, hE, hF, rfl, hc⟩
+
+/-- **every word `to68` produces is an assembled canonical word** (all `m·2^e`, including the clamps) -/
+theorem to68_fields (m e : Int) :
+    ∃ s E F, s ≤ 1 ∧ E < 256 ∧ F < 8388608 ∧ to68 m e = s * 2147483648 + E * 8388608 + F ∧ Canon68 s E F := by
+  by_cases hm : m = 0
+  · subst hm
+    rw [to68_zero]
+    exact asm_exists 0 128 0 (by omega) (by omega) (by omega) (Or.inl ⟨rfl, Or.inr (Or.inr ⟨rfl, rfl⟩)⟩)
+  · have hcl := to68_clamps m e hm
+    by_cases hu : frexpExp m e ≤ -151
+    · rw [hcl.1 hu]
+      exact asm_exists 0 128 0 (by omega) (by omega) (by omega) (Or.inl ⟨rfl, Or.inr (Or.inr ⟨rfl, rfl⟩)⟩)
+    · by_cases ho : 127 < frexpExp m e
+      · rw [hcl.2 ho]
+        split
+        · exact asm_exists 1 255 4194304 (by omega) (by omega) (by omega) (Or.inr ⟨rfl, Or.inl ⟨by omega, by omega⟩⟩)
+        · exact asm_exists 0 255 8388607 (by omega) (by omega) (by omega) (Or.inl ⟨rfl, Or.inl (by omega)⟩)
+      · unfold frexpExp at hu ho
+        rw [if_neg hm] at hu ho
+        have hA0 : m.natAbs ≠ 0 := by omega
+        have hb := bitLen_bounds _ hA0
+        have hbp := bitLen_pos _ hA0
+        rcases Int.natAbs_eq m with hmA | hmA
+        · generalize m.natAbs = A at *
+          subst hmA
+          by_cases hden : e + bitLen A < -128
+          · rw [to68_denormal_pos' A e hA0 (by omega) hden]
+            have hT := tdm_denormal_bound A e hA0 (by omega) hden
+            exact asm_exists 0 0 _ (by omega) (by omega) (by omega) (Or.inl ⟨rfl, Or.inr (Or.inl ⟨rfl, by omega⟩)⟩)
+          · rw [to68_normal_pos A e hA0 (by omega) (by omega)]
+            have ht := tmag_bounds A (bitLen A) hbp hb.1 hb.2
+            simp only [Nat.reducePow] at ht
+            exact asm_exists 0 _ _ (by omega) (by omega) (by omega) (Or.inl ⟨rfl, Or.inl (by omega)⟩)
+        · generalize m.natAbs = A at *
+          subst hmA
+          by_cases hden : e + bitLen A < -128
+          · rw [to68_denormal_neg' A e hA0 (by omega) hden]
+            have hT := tdm_denormal_bound A e hA0 (by omega) hden
+            exact asm_exists 1 255 _ (by omega) (by omega) (by omega) (Or.inr ⟨rfl, Or.inr ⟨rfl, by omega⟩⟩)
+          · rw [to68_normal_neg A e hA0 (by omega) (by omega)]
+            have ht := tmag_bounds A (bitLen A) hbp hb.1 hb.2
+            simp only [Nat.reducePow] at ht
+            exact asm_exists 1 _ _ (by omega) (by omega) (by omega) (Or.inr ⟨rfl, Or.inl ⟨by omega, by omega⟩⟩)
+
+theorem to68_canonical (m e : Int) : CanonWord (to68 m e) ∧ to68 m e < 2 ^ 32 := by
+  obtain ⟨s, E, F, hs, hE, hF, hw, hc⟩ := to68_fields m e
+  rw [hw]
+  exact ⟨canonWord_assembled s E F hs hE hF hc, by simp only [Nat.reducePow]; omega⟩
+
 end TD.C07
